@@ -5,12 +5,13 @@ From FCA Require Import Base.ListSet Model.BinTable Model.BinTableOps Spec.Galoi
      Spec.BinTableOpsSpec Lemmas.BitRow.
 From FCA Require Import Lemmas.C05_Base Lemmas.C05_Reduce Lemmas.C05_Algebra.
 
+(* subscripts only have to be in range: index lists may be unsorted and may repeat an index *)
 Definition idx_ok (n : nat) (x : idx) : Prop :=
-  match x with XInt i => i < n | XSel s => sel_ok n (sel_idx s) end.
+  match x with XInt i => i < n | XSel s => in_range n (sel_idx s) end.
 Definition item_ok (t : table) (it : item) : Prop :=
   match it with
   | ItInt i => i < height t
-  | ItSel s => sel_ok (height t) (sel_idx s)
+  | ItSel s => in_range (height t) (sel_idx s)
   | ItPair a b => idx_ok (height t) a /\ idx_ok (width t) b
   end.
 
@@ -61,7 +62,7 @@ Lemma getitem_raw_correct b t it : wf t -> item_ok t it -> getitem_raw b t it = 
 Proof.
   intros Hwf Hok. destruct it as [i|s|[i|r] [j|c]]; simpl in *.
   - f_equal. apply get_row_none_correct; assumption.
-  - f_equal. apply get_subtable_none_correct; [exact Hwf | apply Hok].
+  - f_equal. apply get_subtable_none_correct; [exact Hwf | exact Hok].
   - destruct b; reflexivity.
   - f_equal. apply get_row_sel_correct.
   - f_equal. apply get_column_correct.
@@ -99,7 +100,7 @@ Proof.
   destruct it as [i|s|[i|r] [j|c]]; simpl in Hs; try discriminate.
   - (* rows s, all columns *)
     cbn [fst snd]. rewrite getitem_raw_correct; [| exact Hwf |].
-    2:{ split; [exact Hok|]. simpl. split; [apply cols_of_in_range | apply seq_NoDup]. }
+    2:{ split; [exact Hok|]. simpl. apply cols_of_in_range. }
     cbn [S_raw sel_idx]. fold (cols_of t).
     assert (Hne : sel_idx s <> []) by (destruct (sel_idx s); [discriminate | discriminate]).
     assert (Han : map (fun k => nth k an 0) (cols_of t) = an).
@@ -167,8 +168,9 @@ Qed.
 Definition ok_op (t : table) (o : op) : Prop :=
   match o with
   | OAnd u | OOr u | OEq u | OCtxEq u => wf u
-  | OAll _ rows cols | OAny _ rows cols | OSum _ rows cols
+  | OAll _ rows cols | OAny _ rows cols
   | OAllI _ rows cols | OAnyI _ rows cols => red_ok t rows cols
+  | OSum axis rows cols => red_ok t rows cols /\ sum_ok axis cols
   | OGet it => item_ok t it
   | OCtxGet on an it => item_ok t it /\ length on = height t /\ length an = width t
   | OCtxT on an | OCtxInvert on an => length on = height t /\ length an = width t
@@ -200,7 +202,7 @@ Proof.
   - rewrite eq_m_correct by assumption. reflexivity.
   - apply all_op_correct; assumption.
   - apply any_op_correct; assumption.
-  - apply sum_op_correct; assumption.
+  - destruct Hok. apply sum_op_correct; assumption.
   - apply all_i_correct; assumption.
   - apply any_i_correct; assumption.
   - apply getitem_correct; assumption.
@@ -226,7 +228,7 @@ Proof.
     destruct via as [|via]; [|discriminate]. destruct target; [discriminate|]. reflexivity.
   - (* context cut by one index, or without rows *)
     destruct Hok as [Hit [Ho Ha]]. simpl. unfold ctx_getitem.
-    assert (Hcols : sel_ok (width t) (seq 0 (width t))) by (split; [apply cols_of_in_range | apply seq_NoDup]).
+    assert (Hcols : in_range (width t) (seq 0 (width t))) by apply cols_of_in_range.
     destruct it as [i|s|[i|r] [j|c]]; cbn [fst snd]; try discriminate.
     + rewrite !getitem_raw_correct by first [exact Hwf | split; [exact Hit | exact Hcols]]. reflexivity.
     + rewrite !getitem_raw_correct by first [exact Hwf | split; [exact Hit | exact Hcols]].
@@ -273,3 +275,10 @@ Proof.
   - rewrite !extension_mono_correct by assumption. reflexivity.
   - rewrite !intention_mono_correct by assumption. reflexivity.
 Qed.
+
+(* why [sum_ok] is there: with a repeated column the bitarray model counts the column once *)
+Lemma sum_repeated_columns_differ :
+  run_op BLists [[true]] (OSum None None (Some [0; 0])) = ROk (VNat 2) /\
+  run_op BNumpy [[true]] (OSum None None (Some [0; 0])) = ROk (VNat 2) /\
+  run_op BBitarray [[true]] (OSum None None (Some [0; 0])) = ROk (VNat 1).
+Proof. repeat split; vm_compute; reflexivity. Qed.
